@@ -2,6 +2,9 @@
 faults and cancellation, inside an outer scope and a catch-all so that the task survives to be probed."""
 import re
 
+from haiway import ctx
+from haiway.context.disposables import Disposables
+
 from harness.interp import Disp, World
 
 
@@ -96,8 +99,9 @@ class ScopeLifeDriver:
             self.entered_called = True
             # the scope is ALSO given a B explicitly: what the disposables yield comes after it and wins
             # (the scope object is made first and kept, so that it can be tried again after the block was left)
-            w.do("1", "prepare", "ascope", 1, [("A", 2), ("B", 9)], "s1",
-                 dict(disposables=list(self.disps) if self.disps else None))
+            # the disposables come as ONE Disposables object, kept: it may go through a second scope later (Again)
+            self.dobj = Disposables(*self.disps) if self.disps else None
+            w.do("1", "prepare", "ascope", 1, [("A", 2), ("B", 9)], "s1", dict(disposables=self.dobj))
             w.do("1", "enterprep")
         elif name == "ReleaseEnter":
             w.release(f"de:d{args[0]}", args[1])
@@ -121,6 +125,19 @@ class ScopeLifeDriver:
                 return o
         elif name == "ReEnter":
             w.do("1", "reenter")
+        elif name == "Again":
+            # a retry: another task opens a NEW scope with the very same Disposables object; nothing fails this time
+            for d in self.disps:
+                d.enter = d.exit = "ok"
+                d.spawns = None
+            dobj = self.dobj
+
+            async def second():
+                async with ctx.scope("s1-again", disposables=dobj):
+                    pass
+
+            w.start("again")
+            w.do("again", "call", second)
         elif name == "Cancel":
             w.cancel("1")
         else:
@@ -156,7 +173,10 @@ def gen_trace(rnd, nd=4, nc=3):
             ph = o["ph"]
             if ph == "post" or ph == "pre":
                 if ph == "post":
-                    o = log("ReEnter", [])      # the same scope object is tried once more: refused, nothing changes
+                    if rnd.random() < 0.5:
+                        o = log("ReEnter", [])      # the same scope object is tried once more: refused, nothing changes
+                    else:
+                        o = log("Again", [])        # the same Disposables object goes through a second scope
                 break
             ch = []
             for i, dd in enumerate(d.disps, 1):
@@ -192,7 +212,7 @@ TRACE_KW = dict(
     constants=dict(ND=4, NC=3, Behaviours='{"ok", "fail", "susp"}', Bug='"none"'),
     config_vars=["cfg", "esp"],
     actions=dict(Enter=0, ReleaseEnter=2, ReleaseExit=2, Leave=1, Spawn=1, ChildEnd=1, ChildFail=1, Cancel=0,
-                 ReleaseEnterLate=2, ReleaseExitLate=2, ChildEndLate=1, ReEnter=0),
+                 ReleaseEnterLate=2, ReleaseExitLate=2, ChildEndLate=1, ReEnter=0, Again=0),
     invariants=["Restored", "BodyExcIdentity", "EnterOnce", "ExitOnce", "ExitArg", "EnterFailureNoBody", "SurfaceCleanup",
                 "CancelNotLost", "CancelAbortsMembers", "NoWaitAfterFailure", "DisposableStateVisible"])
 
